@@ -335,6 +335,10 @@ def _for_over(ex, stmt, st, it, key, lc):
         r = h(stmt, st, it, key, lc)
         if r is not NotImplemented:
             return r
+    if isinstance(it, LRef) and lc and lc.get('cut'):
+        # a list iterated in order under a loop invariant: an index iterator over the (unmodified) list
+        from .models import make_iter
+        it = make_iter(ex, st, it, 'seq_iter')
     if isinstance(it, Rec) and it.kind == 'aseq':
         o = st.objs[it.oid]
         it = ex.new_obj(st, 'seq_iter', {'SEQ': it, 'K': 0, 'N': o['N'], 'AT': o['AT']})
